@@ -883,6 +883,20 @@ pub fn judge_pgraph(ctx: &mut Ctx, c: &PgCase) {
 
 pub fn run(cfg: &Cfg) -> Report {
     let mut report = Report::new(cfg);
+    // abandoned calls between judged cases: division by the zero class, a product of mismatched shapes
+    crate::monitor::set_poison(|k| match k % 3 {
+        0 => {
+            let _ = PrimeResidueClass::<7>::from(3) / PrimeResidueClass::<7>::from(0);
+        }
+        1 => {
+            let a = VecMatrix::<i64>::new(2, 3);
+            let b = VecMatrix::<i64>::new(2, 3);
+            let _ = &a * &b;
+        }
+        _ => {
+            let _ = PrimeResidueClass::<11>::from(5) / PrimeResidueClass::<11>::from(-22);
+        }
+    });
     let seed = cfg.seed;
     let release = cfg.lane == "release";
 
